@@ -135,6 +135,10 @@ fn local_edits(b: &Base, f: &mut dyn FnMut(String, &str, String)) {
                 let ins = format!("{}# c\n", " ".repeat(ind));
                 f(format!("comment-line@{li} indent={ind}"), &format!("comment-line:{ctx}"), splice(src, ls, &ins));
             }
+            for (k, text) in COMMENT_TEXTS.iter().enumerate() {
+                let ins = format!("{}{text}\n", " ".repeat(cur));
+                f(format!("comment-line@{li} text={k}"), &format!("comment-line-text{k}:{ctx}"), splice(src, ls, &ins));
+            }
             f(format!("empty-line@{li}"), &format!("empty-line:{ctx}"), splice(src, ls, "\n"));
             f(format!("blank-line@{li} w=3"), &format!("blank-line:{ctx}"), splice(src, ls, "   \n"));
             f(format!("blank-line@{li} w={}", cur + 2), &format!("blank-line:{ctx}"), splice(src, ls, &format!("{}\n", " ".repeat(cur + 2))));
@@ -145,6 +149,10 @@ fn local_edits(b: &Base, f: &mut dyn FnMut(String, &str, String)) {
             let p = ls + line.len();
             if !b.strictly_inside_string(p) && !(p > 0 && b.prot.iter().any(|&(s, e)| p > s && p < e)) && !line.ends_with('\\') && !line.trim().is_empty() {
                 f(format!("trailing-comment@{li}"), &format!("trailing-comment:{ctx}"), splice(src, p, "  # c"));
+                // comment text is data: multi-byte and astral characters, quotes, brackets, a second hash, no space after `#`
+                for (k, text) in COMMENT_TEXTS.iter().enumerate() {
+                    f(format!("trailing-comment@{li} text={k}"), &format!("trailing-comment-text{k}:{ctx}"), splice(src, p, &format!("  {text}")));
+                }
                 f(format!("trailing-spaces@{li}"), &format!("trailing-spaces:{ctx}"), splice(src, p, "  "));
                 f(format!("trailing-tab@{li}"), &format!("trailing-tab:{ctx}"), splice(src, p, "\t"));
             }
@@ -174,6 +182,9 @@ fn local_edits(b: &Base, f: &mut dyn FnMut(String, &str, String)) {
     }
     f("double-final-newline".to_string(), "final-newline", format!("{src}\n"));
 }
+
+/// Comment texts beyond `# c` (the text of a comment is data and must not influence the token stream).
+const COMMENT_TEXTS: [&str; 5] = ["# é → ✓ 𝄞𝄞𝄞 ───", "#\"unterminated ( [ {", "## def f(): # nested", "#", "# tab\there \\"];
 
 fn splice(src: &str, at: usize, ins: &str) -> String {
     let mut s = String::with_capacity(src.len() + ins.len());
